@@ -67,7 +67,7 @@ def _any_worker(task):
     if kind == "F":
         try:
             prog, reg = _init()
-            return finite.run(task[1], prog, reg, task[2], REPO)
+            return finite.run(task[1], prog, reg, task[2], REPO, group=task[3])
         except Exception as e:
             return {"error": f"finite obligations crashed: {type(e).__name__}: {e} {traceback.format_exc()[-600:]}"}
     return None
@@ -111,7 +111,7 @@ def run_rtcheck(function, bound, seeds=None, only=None, max_cases=0, time_limit=
     env["VERIF_REPO"] = REPO
     try:
         p = subprocess.run(cmd, capture_output=True, text=True, env=env, timeout=(time_limit or 600) + 60)
-        line = [l for l in p.stdout.splitlines() if l.startswith("{")]
+        line = [l for l in p.stdout.split("\n") if l.startswith("{")]
         if not line:
             return {"function": function, "error": (p.stderr or p.stdout)[-600:], "cases": 0, "failures": []}
         return json.loads(line[-1])
@@ -134,7 +134,7 @@ def parser_trace_witness():
         try:
             p = subprocess.run([REPO_PY, os.path.join(VERIF, "pyvc", "enum_parser_traces.py"), "--bound", "4",
                                 "--max-fail", "1", "--time-limit", "240"], capture_output=True, text=True, env=env, timeout=400)
-            line = [l for l in p.stdout.splitlines() if l.startswith("{")]
+            line = [l for l in p.stdout.split("\n") if l.startswith("{")]
             w = json.loads(line[-1])["results"][0].get("witness") if line else None
             _trace_witness.append(w[0] if w else None)
         except Exception:
@@ -153,7 +153,7 @@ def enum_witness(script, args):
         try:
             p = subprocess.run([REPO_PY, os.path.join(VERIF, "pyvc", f"enum_{script}.py")] + args, capture_output=True,
                                text=True, env=env, timeout=600)
-            line = [l for l in p.stdout.splitlines() if l.startswith("{")]
+            line = [l for l in p.stdout.split("\n") if l.startswith("{")]
             w = None
             for r in (json.loads(line[-1])["results"] if line else []):
                 if not r.get("ok") and r.get("witness"):
@@ -223,12 +223,18 @@ def main(argv):
                 tasks.append((q, pid, both, (i, n) if n > 1 else None))
         tasks.sort(key=lambda t: -len(reg.contracts[t[0]].loops))
     bound = 3 if tier == "quick" else 4
-    all_tasks = [("F", pid, tier)] + [("P",) + t for t in (tasks if funcs else [])] + \
+    all_tasks = [("F", pid, tier, g) for g in range(len(finite.groups(pid)))] + [("P",) + t for t in (tasks if funcs else [])] + \
                 [("B", q, bound, pid, 40000 if tier == "quick" else 400000, 60 if tier == "quick" else 600) for q in funcs]
     ctx = mp.get_context("fork")
     with ctx.Pool(min(16, max(1, len(all_tasks))), maxtasksperchild=1) as pool:
         results = pool.map(_any_worker, all_tasks, chunksize=1)
-    f_pre = [r for t, r in zip(all_tasks, results) if t[0] == "F"][0]
+    f_pre = []
+    for t, r in zip(all_tasks, results):
+        if t[0] == "F":
+            if isinstance(r, dict) and r.get("error"):
+                f_pre = r
+                break
+            f_pre.extend(r)
     b_pre = [r for t, r in zip(all_tasks, results) if t[0] == "B"]
     parts = [r for t, r in zip(all_tasks, results) if t[0] == "P"]
     if funcs:
@@ -327,7 +333,7 @@ def main(argv):
             if r.get("checker_error"):
                 errors.append(f"{r['name']}: {r.get('detail')}")
             else:
-                violations.append({"obligation": r["name"], "kind": "finite", "detail": r.get("detail"),
+                violations.append({"obligation": r["name"], "kind": "bounded" if r.get("bounded") else "finite", "detail": r.get("detail"),
                                    "witness": r.get("witness"), "input_found": bool(r.get("witness"))})
     # ---------------- B stand-ins (all functions of the property that declare a generator; mandatory for out-of-reach ones)
     b_results = b_pre
